@@ -81,6 +81,12 @@ def formula(e):
         return _or([_and([c, formula(e.body)]), _and([_neg(c), formula(e.orelse)])])
     if isinstance(e, ast.Call) and isinstance(e.func, ast.Name) and e.func.id == 'bool' and len(e.args) == 1 and not e.keywords:
         return formula(e.args[0])
+    if isinstance(e, ast.Compare) and len(e.ops) == 1 and isinstance(e.ops[0], (ast.In, ast.NotIn)) and \
+            isinstance(e.comparators[0], (ast.Tuple, ast.List, ast.Set)) and 1 <= len(e.comparators[0].elts) <= 6 and \
+            all(isinstance(x, ast.Constant) for x in e.comparators[0].elts):
+        # `x in (c1, c2)` is `x == c1 or x == c2`
+        alts = _or([formula(ast.Compare(left=e.left, ops=[ast.Eq()], comparators=[c])) for c in e.comparators[0].elts])
+        return _neg(alts) if isinstance(e.ops[0], ast.NotIn) else alts
     if isinstance(e, ast.Compare):
         parts, left = [], e.left
         for op, right in zip(e.ops, e.comparators):
